@@ -65,6 +65,12 @@ type DirectConnection struct {
 	defaultCollation mysql.CollationID
 	defaultCharset   string
 
+	// session settings the backend acknowledged last (those of the handshake at first);
+	// restored when the backend rejects a SET statement, see WriteSetStatement
+	ackedCollation mysql.CollationID
+	ackedCharset   string
+	ackedVariables *mysql.SessionVariables
+
 	pkgErr                   error
 	closed                   sync2.AtomicBool
 	capabilityConnectToMySQL uint32
@@ -88,6 +94,9 @@ func NewDirectConnection(addr string, user string, password string, db string, c
 		collation:                collationID,
 		defaultCharset:           charset,
 		defaultCollation:         collationID,
+		ackedCharset:             charset,
+		ackedCollation:           collationID,
+		ackedVariables:           mysql.NewSessionVariables(),
 		closed:                   sync2.NewAtomicBool(false),
 		sessionVariables:         mysql.NewSessionVariables(),
 		capabilityConnectToMySQL: clientCapability,
@@ -892,12 +901,24 @@ func (dc *DirectConnection) SyncSessionVariables(frontend *mysql.SessionVariable
 	return nil
 }
 
+// restoreAckedSession makes the recorded session settings those the backend acknowledged last.
+// The backend applies a SET statement as a whole or not at all, so after a rejected statement its session still
+// holds the previous settings; keeping the new ones on record would let a later session that asks for exactly
+// them reuse this connection without any SET statement being sent.
+func (dc *DirectConnection) restoreAckedSession() {
+	dc.charset = dc.ackedCharset
+	dc.collation = dc.ackedCollation
+	dc.sessionVariables = dc.ackedVariables.Clone()
+}
+
 // WriteSetStatement execute sql
 func (dc *DirectConnection) WriteSetStatement() error {
 	var setVariableSQL bytes.Buffer
 	collation, ok := mysql.Collations[dc.collation]
 	if !ok {
-		return fmt.Errorf("invalid collationId: %v", dc.collation)
+		err := fmt.Errorf("invalid collationId: %v", dc.collation)
+		dc.restoreAckedSession()
+		return err
 	}
 	appendSetCharset(&setVariableSQL, dc.charset, collation)
 
@@ -918,8 +939,12 @@ func (dc *DirectConnection) WriteSetStatement() error {
 		return nil
 	}
 	if _, err := dc.exec(setSQL, 0); err != nil {
+		dc.restoreAckedSession()
 		return err
 	}
+	dc.ackedCharset = dc.charset
+	dc.ackedCollation = dc.collation
+	dc.ackedVariables = dc.sessionVariables.Clone()
 	return nil
 }
 
